@@ -104,7 +104,9 @@ func buildFaultReference(rep *Report, s Setup, g *Gen, dir string, tip uint32, r
 			run.Fake.ResetCounters()
 			res = run.Step(b)
 			if !res.ImplOK || res.Diff != "" {
-				rep.Note("infrastructure: reference chain cannot pass height %d: %s", h, res.ImplMsg)
+				path := WriteReplay(rep.Property, "faults-ref", Replay{Property: rep.Property, Scenario: "faults", Seed: g.Seed, Setup: s,
+					What: fmt.Sprintf("reference chain cannot pass height %d even with an empty block", h), Detail: []string{res.Diff, res.ImplMsg, res.ModelAns}})
+				rep.Disagree("reference:stuck:"+res.ImplClass, fmt.Sprintf("h=%d %s %s", h, res.Diff, res.ImplMsg), path)
 				return nil, false
 			}
 		}
